@@ -41,8 +41,9 @@ RULE = ("exhaustive: every text over {a . space \\n ( )} up to the tier's length
         "share the line-table cache (share=true) or are re-created per query (share=false); a case is non-trivial "
         "when the text is non-empty")
 EXHAUSTIVE = True
-EXHAUSTIVE_SCOPE = {"quick": "alphabet {a . space \\n ( )}, len<=4, all cursors, all query families",
-                    "thorough": "alphabet {a . space \\n ( )}, len<=5, all cursors, all query families"}
+EXHAUSTIVE_SCOPE = {"quick": "alphabet {a . space \\n ( )} len<=4 and {B _ tab [ ] wide} len<=3, all cursors, all query families",
+                    "thorough": "alphabet {a . space \\n ( )} len<=5, {B _ tab [ ] wide} len<=5, {a space \\n (} len=6, "
+                                "all cursors, all query families"}
 TRUSTED = ["harness/c02.py compares every query result field by field",
            "Ptk/Model/C02.lean is a hand translation of document.py (correspondence-checked)",
            "the six word regexes are replaced by run scanners; pattern strings are pinned by `decide` examples"]
@@ -98,7 +99,20 @@ def expand(case):
     return out
 
 
+def kop_tokens(op):
+    k, t = op[0], enc_str(op[1])
+    if k in ("L", "S", "G"):
+        return [k, t]
+    if k == "I":
+        return [k, t, str(op[2])]
+    if k == "R":
+        return [k, t, str(op[2]), str(op[3])]
+    raise ValueError(op)
+
+
 def model_lines(case):
+    if case.get("kind") == "cache":
+        return ["K " + " ".join(tok for op in case["kops"] for tok in kop_tokens(op))]
     return [q_line(case["text"], c, q) for c, q in expand(case)]
 
 
@@ -213,7 +227,56 @@ def make_docs(case):
     return lambda c: Document(text, 0 if c is None else c)
 
 
+def run_cache_ops(case):
+    """cache-level case: every query is asked through a NEW Document object; documents with equal
+    text stay alive (and therefore share one `_DocumentCache`) until a "G" op drops them all, which
+    lets the weak dictionary forget the entry.  Returns [(op, answer, shared_ok)]."""
+    import prompt_toolkit.document as D
+
+    live = {}
+    out = []
+    d = docs = None
+    for n, op in enumerate(case["kops"]):
+        k, t = op[0], op[1]
+        d = docs = None          # (do not keep the previous Document alive through a local)
+        if k == "G":
+            live.pop(t, None)
+            out.append((op, None, t not in D._text_to_document_cache))
+            continue
+        d = Document(t, (n * 7) % (len(t) + 1))
+        docs = live.setdefault(t, [])
+        shared = all(x._cache is d._cache for x in docs) and D._text_to_document_cache.get(t) is d._cache
+        docs.append(d)
+        if k == "L":
+            a = list(d.lines)
+        elif k == "S":
+            a = list(d._line_start_indexes)
+        elif k == "I":
+            a = d.translate_index_to_position(op[2])
+        elif k == "R":
+            a = d.translate_row_col_to_index(op[2], op[3])
+        else:
+            raise ValueError(op)
+        out.append((op, a, shared))
+    return out
+
+
 def impl_lines(case):
+    if case.get("kind") == "cache":
+        parts = []
+        for op, a, _ in run_cache_ops(case):
+            k = op[0]
+            if k == "G":
+                parts.append("G")
+            elif k == "L":
+                parts.append("L " + enc_list(a, enc_str))
+            elif k == "S":
+                parts.append("S " + enc_list(a))
+            elif k == "I":
+                parts.append(f"I {a[0]} {a[1]}")
+            else:
+                parts.append(f"R {a}")
+        return [" | ".join(parts)]
     get = make_docs(case)
     return [answer(get(c), q) for c, q in expand(case)]
 
@@ -540,7 +603,43 @@ def oracle_cur(text, cur, d: Document, q, bad):
                     bad(site, "unbalanced", f"interior {inner!r} is not balanced")
 
 
+def oracle_cache(case):
+    """documents with equal text share one line table, and every answer read through the shared
+    (possibly pre-filled, possibly just re-created) table equals the direct computation"""
+    v = []
+    seen = set()
+
+    def bad(site, cond, msg):
+        sig = f"{site} | {cond}"
+        if sig not in seen:
+            seen.add(sig)
+            v.append({"signature": sig, "msg": msg})
+
+    for op, a, shared in run_cache_ops(case):
+        k, t = op[0], op[1]
+        lines = t.split("\n")
+        starts = [sum(len(l) + 1 for l in lines[:j]) for j in range(len(lines))]
+        if not shared:
+            bad("Document._cache", "not shared / not released",
+                f"op {op}: documents with equal text do not share the cache entry (or G did not release it)")
+        if k == "L" and a != lines:
+            bad("Document.lines", "cached split", f"op {op}: {a!r}")
+        elif k == "S" and a != starts:
+            bad("Document._line_start_indexes", "cached starts", f"op {op}: {a!r}")
+        elif k == "I" and op[2] <= len(t):
+            i = op[2]
+            if tuple(a) != (t[:i].count("\n"), i - (t.rfind("\n", 0, i) + 1)):
+                bad("Document.translate_index_to_position", "cached split", f"op {op}: {a!r}")
+        elif k == "R" and 0 <= op[2] < len(lines):
+            exp = starts[op[2]] + max(0, min(op[3], len(lines[op[2]])))
+            if a != exp:
+                bad("Document.translate_row_col_to_index", "cached clamp", f"op {op}: {a!r} != {exp}")
+    return v
+
+
 def oracle(case):
+    if case.get("kind") == "cache":
+        return oracle_cache(case)
     v = []
     text = case["text"]
     get = make_docs(case)
@@ -562,7 +661,7 @@ def oracle(case):
 NEEDLES_X = ["", "a", ".a", "\n", "aa", "A", " "]
 
 
-def queries_for(text, needles, counts_w, exhaustive=True):
+def queries_for(text, needles, counts_w, pairs=(("(", ")"),)):
     n = len(text)
     lines = text.split("\n")
     maxl = max(len(l) for l in lines)
@@ -588,7 +687,7 @@ def queries_for(text, needles, counts_w, exhaustive=True):
             qs.append(["F", sub, k])
     qs.append(["F", "a", 0])
     qs.append(["BM", None, None])
-    for l, r in (("(", ")"),):
+    for l, r in pairs:
         for lim in [None] + list(range(-1, n + 2)):
             qs.append(["BR", l, r, lim])
             qs.append(["BL", l, r, lim])
@@ -648,14 +747,28 @@ def rand_queries(rng, text, cur_hint):
     return qs
 
 
-def cases(tier, rng):
-    maxlen = 4 if tier == "quick" else 5
+ALPHA2 = ["B", "_", "\t", "[", "]", "世"]
+ALPHA3 = ["a", " ", "\n", "("]
+NEEDLES_2 = ["", "B", "_B", "\t", "b", "世", "]"]
+
+
+def exhaustive(alpha, lens, needles, pairs):
     counts_w = (-2, -1, 0, 1, 2, 3)
-    for n in range(maxlen + 1):
-        for tup in itertools.product(ALPHA, repeat=n):
+    for n in lens:
+        for tup in itertools.product(alpha, repeat=n):
             text = "".join(tup)
-            yield {"text": text, "curs": list(range(n + 1)), "share": (n + text.count("a")) % 2 == 0,
-                   "qs": queries_for(text, NEEDLES_X, counts_w)}
+            yield {"text": text, "curs": list(range(n + 1)), "share": (n + text.count(alpha[0])) % 2 == 0,
+                   "qs": queries_for(text, needles, counts_w, pairs)}
+
+
+def cases(tier, rng):
+    if tier == "quick":
+        yield from exhaustive(ALPHA, range(0, 5), NEEDLES_X, (("(", ")"),))
+        yield from exhaustive(ALPHA2, range(1, 4), NEEDLES_2, (("[", "]"),))
+    else:
+        yield from exhaustive(ALPHA, range(0, 6), NEEDLES_X, (("(", ")"),))
+        yield from exhaustive(ALPHA2, range(1, 6), NEEDLES_2, (("[", "]"),))
+        yield from exhaustive(ALPHA3, range(6, 7), ["", "a", "a ", "\n"], (("(", ")"),))
     nrand = 1500 if tier == "quick" else 40000
     for _ in range(nrand):
         n = rng.choice([0, 1, 2, 3, 5, 8, 13, 21, 34, 60])
@@ -668,19 +781,49 @@ def cases(tier, rng):
             curs.add(b + 1)
         yield {"text": text, "curs": sorted(curs), "share": rng.random() < 0.7,
                "qs": rand_queries(rng, text, None)}
+    yield from cache_cases(tier, rng)
+
+
+def cache_cases(tier, rng):
+    n = 400 if tier == "quick" else 6000
+    for _ in range(n):
+        pool = [rand_text(rng, rng.choice([0, 1, 3, 6, 12])) for _ in range(rng.choice([1, 2, 3]))]
+        ops = []
+        for _ in range(rng.randrange(3, 14)):
+            t = rng.choice(pool)
+            nl = t.count("\n") + 1
+            k = rng.choice("LLSSIIRRG")
+            if k == "I":
+                ops.append(["I", t, rng.randrange(0, len(t) + 2)])
+            elif k == "R":
+                ops.append(["R", t, rng.randrange(-1, nl + 1), rng.randrange(-1, len(t) + 2)])
+            else:
+                ops.append([k, t])
+        yield {"kind": "cache", "text": pool[0], "curs": [], "qs": [], "kops": ops}
 
 
 def sample_view(case):
+    if case.get("kind") == "cache":
+        return case
     return dict(case, qs=case["qs"][:6] + [f"... {len(case['qs'])} queries x {len(case['curs'])} cursors"])
 
 
 def nontrivial(case):
+    if case.get("kind") == "cache":
+        return len(case["kops"]) > 1
     return len(case["text"]) > 0
 
 
 def distribution(cases):
-    d = {"text_len": {}, "queries": {}, "share": {"true": 0, "false": 0}, "lines": 0}
+    d = {"text_len": {}, "queries": {}, "share": {"true": 0, "false": 0}, "lines": 0, "cache_cases": 0,
+         "cache_ops": {}}
     for c in cases:
+        if c.get("kind") == "cache":
+            d["cache_cases"] += 1
+            d["lines"] += 1
+            for op in c["kops"]:
+                d["cache_ops"][op[0]] = d["cache_ops"].get(op[0], 0) + 1
+            continue
         n = len(c["text"])
         key = str(n) if n < 6 else ("6-20" if n <= 20 else "21+")
         d["text_len"][key] = d["text_len"].get(key, 0) + 1
